@@ -540,3 +540,68 @@ def coercion_site_is_raw_pointer(chk, prog, config="default"):
                          name, "; ".join(probs)),
                      loc="%s:%s" % (f["span"]["f"], f["span"]["l"]), sample={"fn": name, "closure_bounds": fn_bounds + outs})
     chk.floor("coercion-functions[%s]" % config, n, 2)
+
+
+# ------------------------------------------------------------------------------------------------ pointer provenance
+
+# (the slice builder prefix is spelled in two pieces so that it does not read as an item path to facts.anchor_paths)
+CARRIERS = ("gc::Gc<", "gc_weak::GcWeak<", "gc::GcBuilder<", "slice::" + "Gc", "dynamic_roots::DynamicRoot", "zst_cache::ZstCache<",
+            "gc_ptr::GcPtr<", "context::Mutation", "context::Finalization")
+
+
+def gc_made_only_from_carriers(chk, prog, config="default"):
+    """A Gc / GcWeak is a pointer to a block with a collector header in front of it. In a *safe* exported function such a
+    pointer may be assembled (struct literal, or any crate function that makes one out of a raw / GcPtr pointer) only
+    from a pointer the function was given inside a value that already vouches for it - another Gc / GcWeak, a builder,
+    a dynamic-root handle, the ZST cache - or obtained by allocating. Made from a plain `&T` / `*const T` argument it
+    points at memory the collector never allocated: no header, no identity with any arena object."""
+    from gcv import coverage
+    ctors = set()
+    for f in prog.f["fns"]:
+        ins = f.get("inputs") or []
+        out_s = (f.get("output") or {}).get("s", "")
+        if ins and out_s.startswith(("gc::Gc<", "gc_weak::GcWeak<")) and \
+                ins[0]["s"].startswith(("*const ", "*mut ", "gc_ptr::GcPtr<", "core::ptr::non_null::NonNull<")):
+            ctors.add(f["n"])
+    n = 0
+    for f in prog.f["fns"]:
+        if f["kind"] not in ("Fn", "AssocFn") or f.get("unsafe") or not (f.get("reachable") or f.get("exported")):
+            continue
+        for key in prog.seed_n.get(f["n"], []):
+            body = prog.bodies[key]
+            if body["def"] != f["path"]:
+                continue
+            defs = coverage._defs(body)
+            argc = body.get("argc") or 0
+            plain = set()
+            for i in range(1, argc + 1):
+                s_ = prog.ty(body["locals"][i]).get("s", "")
+                t_ = prog.ty(body["locals"][i])
+                if t_.get("k") in ("ref", "ptr") and not any(c in s_ for c in CARRIERS):
+                    plain.add(i)
+            if not plain:
+                break
+            sites = []
+            for bi, bb in enumerate(body["blocks"]):
+                if bb.get("c"):
+                    continue
+                for st in bb["s"]:
+                    if st["k"] == "assign" and st["r"]["k"] == "agg" and st["r"]["ak"].get("def") in ("gc::Gc", "gc_weak::GcWeak"):
+                        sites += [(st.get("l"), o, st["r"]["ak"]["def"]) for o in st["r"]["ops"]]
+                t = bb["t"]
+                if t and t["k"] == "call" and t["args"]:
+                    r = t["f"].get("resolved")
+                    name = norm(r["def"]) if r else norm(t["f"].get("def", ""))
+                    if name in ctors:
+                        sites.append((t.get("l"), t["args"][0], name))
+            for (line, op, what) in sites:
+                n += 1
+                roots = {r0 for (r0, acc, fl) in coverage.chains_of(prog, body, defs, op)}
+                bad = sorted(r0 for r0 in roots if r0 in plain)
+                chk.inst("gc-made-only-from-carriers", "%s:%s[%s]" % (f["n"], what.split("::")[-1], config), not bad,
+                         detail="safe `%s` makes a %s pointer (line %s) out of its plain reference / raw pointer argument(s) %s: "
+                                "nothing vouches that the memory is a collector allocation with a header in front of it" % (
+                                    f["n"], what, line, bad), loc="%s:%s" % (body["span"]["f"], line),
+                         sample={"fn": f["n"], "pointer": what, "from_arguments": bad})
+            break
+    chk.extra.setdefault("gc_assembly_sites_in_safe_fns_with_plain_pointer_arguments", {})[config] = n
